@@ -7,7 +7,9 @@ from webob.datetime_utils import parse_date, serialize_date
 from webob.util import header_docstring, warn_deprecation
 
 CHARSET_RE = re.compile(r";\s*charset=([^;]*)", re.I)
-SCHEME_RE = re.compile(r"^[a-z]+:", re.I)
+# re.ASCII: with re.IGNORECASE alone [a-z] also matches non-ASCII characters
+# that case-fold to an ASCII letter (U+017F, U+212A, U+0130, U+0131)
+SCHEME_RE = re.compile(r"^[a-z]+:", re.I | re.A)
 
 
 _not_given = object()
